@@ -445,6 +445,36 @@ def wfTxnB (b : Backend) (fs : FS) (txn : Txn) (pre : Store) : Bool :=
 /-- the content the transaction is meant to produce -/
 def finalStore (b : Backend) (fs : FS) (txn : Txn) (pre : Store) : Store := applyOps pre (txnOps b fs txn)
 
+/-! ## histories: several transactions on one PulseStorage object, failures in between -/
+
+/-- the state one transaction leaves when a failure hits at position `k` (`k ≥` number of steps: none) -/
+def runTxn (b : Backend) (fs : FS) (txn : Txn) (k : Nat) : FS :=
+  run ((compileTxn b fs txn).1.take k) fs
+
+/-- a history: each transaction is compiled against the state (backend content *and* cache) its predecessor
+left — there is no other state a PulseStorage carries from one operation to the next -/
+def runHistory (b : Backend) : FS → List (Txn × Nat) → FS
+  | fs, [] => fs
+  | fs, (txn, k) :: h => runHistory b (runTxn b fs txn k) h
+
+/-- every transaction of the history is well formed against the content it meets -/
+def WFhistory (b : Backend) : FS → List (Txn × Nat) → Prop
+  | _, [] => True
+  | fs, (txn, k) :: h => (∀ pre, view b fs = some pre → WFtxn b fs txn pre) ∧ WFhistory b (runTxn b fs txn k) h
+
+/-- the cache of the PulseStorage only holds identifiers the backend stores -/
+def CacheOK (b : Backend) (fs : FS) : Prop :=
+  ∀ pre, view b fs = some pre → ∀ i, fs.cache.get i ≠ none → pre.get i ≠ none
+
+/-- a history of stores / overwrites of template trees whose sub-templates taken from the storage load
+without the identifier being stored — hypotheses on the trees only -/
+def TreeHistory (b : Backend) : FS → List (Txn × Nat) → Prop
+  | _, [] => True
+  | fs, (txn, k) :: h =>
+    (∃ top n, (txn = .overwrite top n ∨ txn = .setitem top n) ∧
+      ∀ pre, view b fs = some pre → n.reusedOK (fun i => Loads (gerase pre.get top) i)) ∧
+    TreeHistory b (runTxn b fs txn k) h
+
 /-! ## line protocol -/
 
 def dataOf? : Sexp → Option Data
@@ -545,6 +575,18 @@ def prefixStates : List Step → FS → List FS
   | [], fs => [fs]
   | s :: ss, fs => fs :: prefixStates ss (step fs s)
 
+/-- length of the shortest prefix of `steps` after which the view of `b` has changed `c` times -/
+def prefixForChanges (b : Backend) : FS → List Step → Nat → Nat
+  | _, _, 0 => 0
+  | _, [], _ => 0
+  | fs, s :: ss, c + 1 =>
+    let fs' := step fs s
+    let changed := match view b fs', view b fs with
+      | some x, some y => !((x.ids ++ y.ids).all (fun i => x.get i == y.get i))
+      | none, none => false
+      | _, _ => true
+    1 + prefixForChanges b fs' ss (if changed then c else c + 1)
+
 def handle : List Sexp → Sexp
   -- (c11 crash <backend> <pre-store> <cache-store> <txn>): every prefix state with its verdict
   | [.atom "crash", b, pre, cache, txn] =>
@@ -557,6 +599,29 @@ def handle : List Sexp → Sexp
       .list [.atom "ok", ofErr r.2, ofBool wf, .list (r.1.map (fun s => .atom s.kind)), ofStore fin,
         .list ((prefixStates r.1 fs).map (fun st =>
           .list [ofView (view b st), judge (view b st) pre fin, .list (st.cache.ids.map ofNat)]))]
+    | _, _, _, _ => Sexp.err "bad-args"
+  -- (c11 history <backend> <pre-store> <cache-store> ((<txn> <k>) …)): the state after every transaction;
+  -- <k> is a number of steps or `(changes c)`: the shortest prefix after which the view changed c times
+  | [.atom "history", b, pre, cache, .list steps] =>
+    match backendOf? b, storeOf? pre, storeOf? cache,
+        steps.mapM (fun s => match s with
+          | .list [t, .list [.atom "changes", c]] => do some ((← txnOf? t), (Sum.inr (← nat? c) : Sum Nat Nat))
+          | .list [t, k] => do some ((← txnOf? t), (Sum.inl (← nat? k) : Sum Nat Nat))
+          | _ => none) with
+    | some b, some pre, some cache, some steps =>
+      let rec go (fs : FS) : List (Txn × Sum Nat Nat) → List Sexp
+        | [] => []
+        | (txn, kk) :: rest =>
+          let r := compileTxn b fs txn
+          let cur := (view b fs).getD []
+          let k := match kk with
+            | .inl k => k
+            | .inr c => prefixForChanges b fs r.1 c
+          let fs' := runTxn b fs txn k
+          let fin := finalStore b fs txn cur
+          .list [ofErr r.2, ofBool (wfTxnB b fs txn cur), ofNat r.1.length, ofView (view b fs'),
+                 judge (view b fs') cur fin, .list (fs'.cache.ids.map ofNat), ofStore fin] :: go fs' rest
+      .list (.atom "ok" :: go (mkFS b pre cache) steps)
     | _, _, _, _ => Sexp.err "bad-args"
   -- (c11 judge <view|missing> <pre-store> <fin-store>)
   | [.atom "judge", v, pre, fin] =>
